@@ -67,8 +67,12 @@ package backends
 //@   pure
 //@   before_call GetObject#1 [same_namespace] arg2 == s.bucketName && arg3 == ite(s.prefix == "", s.workspacePrefix, s.prefix + "/" + s.workspacePrefix) + "/" + trimChars(path, "/") + "/" + trimChars(key, "/")
 
+// C08: the object that is uploaded is the caller's content itself (handed to the client unread), and Set succeeds only if
+// that one upload succeeded
 //@ func (*S3Cache).Set(s, ctx, path, key, content) (err)
-//@   pure
+//@   modifies s3Puts, s3LastPutOK
+//@   before_call PutObject#1 [uploads_the_callers_content_itself] arg4 == content
+//@   ensures [success_is_the_uploads_success] err == nil ==> s3Puts == old(s3Puts) + 1 && s3LastPutOK
 //@   before_call PutObject#1 [same_namespace] arg2 == s.bucketName && arg3 == ite(s.prefix == "", s.workspacePrefix, s.prefix + "/" + s.workspacePrefix) + "/" + trimChars(path, "/") + "/" + trimChars(key, "/")
 
 //@ func (*S3Cache).Exists(s, ctx, path, key) (r, err)
